@@ -8,3 +8,10 @@ import MdVerif.Props.C02Big
 #print axioms MdVerif.C02Big.C02_convert_cases
 #print axioms MdVerif.C02Big.C02_convertBig_err_iff
 #print axioms MdVerif.C02Big.C02_convertBig_err_only_unescape
+#print axioms MdVerif.C02Big.C02_stx_token_invariant
+#print axioms MdVerif.C02Big.C02_unescape_never_raises
+#print axioms MdVerif.C02Big.C02_no_bad_token
+#print axioms MdVerif.C02Big.C02_convertBig_ok
+#print axioms MdVerif.C02Big.C02_convertBig_never_err
+#print axioms MdVerif.C02Big.C02_convert_never_err
+#print axioms MdVerif.C02Big.C02_convert_ok_or_stack_fuel
